@@ -183,20 +183,39 @@ func errAmbiguousColumn(col, detail string) error {
 // the aggregator/global-window emit the value (needed to resolve it from the
 // enriched row); the output name is what reaches sinks. No-op when unchanged.
 func (s *Stream) projectGroupColumns(results []map[string]any) {
+	// The renames are applied simultaneously: with SELECT a AS b, b AS c ... GROUP BY a, b the
+	// output name of one key is the stored name of another, and renaming them one after the other
+	// would drop or overwrite a key value.
+	type rename struct{ from, to string }
+	var renames []rename
 	for i, gf := range s.config.GroupFields {
 		if i >= len(s.groupOutputNames) {
 			break
 		}
-		out := s.groupOutputNames[i]
-		if out == gf {
-			continue
+		if out := s.groupOutputNames[i]; out != gf {
+			renames = append(renames, rename{gf, out})
 		}
-		for _, row := range results {
-			if v, ok := row[gf]; ok {
-				if _, exists := row[out]; !exists {
-					row[out] = v
-				}
-				delete(row, gf)
+	}
+	if len(renames) == 0 {
+		return
+	}
+	vals := make([]any, len(renames))
+	has := make([]bool, len(renames))
+	for _, row := range results {
+		for k, r := range renames {
+			vals[k], has[k] = row[r.from]
+		}
+		for k, r := range renames {
+			if has[k] {
+				delete(row, r.from)
+			}
+		}
+		for k, r := range renames {
+			if !has[k] {
+				continue
+			}
+			if _, exists := row[r.to]; !exists {
+				row[r.to] = vals[k]
 			}
 		}
 	}
